@@ -111,7 +111,8 @@ def cluster_meta_rt(ctx, job):
                 got = b3.f[0].v.f[0].v
                 same = zand([veq(got.f[i].v, orig.f[i].v) for i in range(len(orig.f))])
                 # deleting a whole trailing group (shorter valid message) cannot happen by one token; anything accepted must be equal
-                ctx.require_all(e, [('deleted-token-not-accepted-as-other-value', 'C17/corrupted-cluster-meta-accepted/deleted-' + token_kind(args[k]), same,
+                in_config = any(sval(t) == 'CONFIG' for t in args[:k] if isinstance(t.s, str))
+                ctx.require_all(e, [('deleted-token-not-accepted-as-other-value', 'C17/corrupted-cluster-meta-accepted/' + ('config-section/' if in_config else '') + 'deleted-' + token_kind(args[k]), same,
                                      lambda m: {'tokens': [concretize(t, m) for t in mut], 'deleted_index': k, 'original': [concretize(t, m) for t in args]})],
                                 replay=lambda m: {'kind': 'rust-test', 'filter': 'verif_replay_wire', 'spec': {'entry': 'corrupt-cluster', 'tokens': [concretize(t, m) for t in mut], 'original': [concretize(t, m) for t in args]}})
         return 2
